@@ -129,10 +129,10 @@ def collection_history(s, cidx):
 def run(s):
     K.suite_workload(s)
     q = s.tier == 'quick'
-    for h in range(120 if q else 4000):
+    for h in range(200 if q else 12000):
         if s.mine(h):
             history(s, h)
-    for c in range(60 if q else 1500):
+    for c in range(150 if q else 5000):
         if s.mine(c):
             collection_history(s, c)
 
